@@ -303,6 +303,10 @@ namespace link_layer {
 
                     commit = false;
 
+                    // answer to an own LL_PHY_REQ
+                    if ( link_layer.procedure_timeout_opcode_ == LL::LL_PHY_REQ )
+                        link_layer.procedure_timeout_ = delta_time();
+
                     if ( c_to_p == phy_ll_encoding::le_unchanged_coding
                       && p_to_c == phy_ll_encoding::le_unchanged_coding )
                     {
@@ -832,6 +836,8 @@ namespace link_layer {
         std::uint16_t                   timeout_value_;
         delta_time                      connection_timeout_;
         delta_time                      procedure_timeout_;
+        // opcode of the own request, the procedure response timer is waiting for an answer to
+        std::uint8_t                    procedure_timeout_opcode_;
         std::uint16_t                   defered_conn_event_counter_;
         write_buffer                    defered_ll_control_pdu_;
         // the received PDU is released before the instant is reached, so a copy has to be kept
@@ -893,6 +899,7 @@ namespace link_layer {
     template < class Server, template < std::size_t, std::size_t, class > class ScheduledRadio, typename ... Options >
     link_layer< Server, ScheduledRadio, Options... >::link_layer()
         : address_( local_device_address::address( *this ) )
+        , procedure_timeout_opcode_( LL_UNKNOWN_RSP )
         , defered_ll_control_pdu_{ nullptr, 0 }
         , used_features_( supported_features )
         , restart_user_timer_requested_( false )
@@ -965,6 +972,7 @@ namespace link_layer {
                 connection_established_reported_        = false;
                 disconnecting_reason_                   = connection_timeout;
                 procedure_timeout_                      = delta_time();
+                procedure_timeout_opcode_               = LL_UNKNOWN_RSP;
 
                 this->set_access_address_and_crc_init( read_32bit( &body[ 12 ] ), read_24bit( &body[ 16 ] ) );
 
@@ -1242,6 +1250,7 @@ namespace link_layer {
         termination_send_     = false;
         disconnecting_reason_ = reason;
         procedure_timeout_    = connection_timeout_;
+        procedure_timeout_opcode_ = LL_TERMINATE_IND;
 
         this->synchronized_connection_event_callback_disconnect();
         this->reset_encryption();
@@ -1304,6 +1313,7 @@ namespace link_layer {
         if ( connection_parameters_request_pending_ )
         {
             procedure_timeout_ = delta_time( default_procedure_timeout_us );
+            procedure_timeout_opcode_ = LL_CONNECTION_PARAM_REQ;
             connection_parameters_request_pending_ = false;
             connection_parameters_request_running_ = true;
 
@@ -1328,6 +1338,13 @@ namespace link_layer {
         {
             phy_update_request_pending_ = false;
 
+            // the PHY update procedure is subject to the procedure response timeout too
+            if ( procedure_timeout_.zero() )
+            {
+                procedure_timeout_ = delta_time( default_procedure_timeout_us );
+                procedure_timeout_opcode_ = LL_PHY_REQ;
+            }
+
             fill< layout_t >( out_buffer, {
                 ll_control_pdu_code, 3, LL_PHY_REQ,
                 phy_update_request_transmit_, phy_update_request_receive_ } );
@@ -1337,6 +1354,7 @@ namespace link_layer {
         else if ( remote_versions_request_pending_ )
         {
             procedure_timeout_ = delta_time( default_procedure_timeout_us );
+            procedure_timeout_opcode_ = LL_VERSION_IND;
             remote_versions_request_pending_ = false;
 
             fill< layout_t >( out_buffer, {
@@ -1610,7 +1628,9 @@ namespace link_layer {
             }
             else if ( opcode == LL_VERSION_IND && size == 6 && !version_indication_received_ )
             {
-                procedure_timeout_ = delta_time();
+                // only the answer to the own request stops the procedure response timer
+                if ( procedure_timeout_opcode_ == LL_VERSION_IND )
+                    procedure_timeout_ = delta_time();
 
                 if ( body[ 1 ] <= LL_VERSION_40 )
                     used_features_ = used_features_ & ~link_layer_feature::connection_parameters_request_procedure;
@@ -1669,9 +1689,14 @@ namespace link_layer {
             {
                 bool opcode_contains_request = opcode == LL_UNKNOWN_RSP || opcode == LL_REJECT_EXT_IND;
 
+                // a PDU that names the rejected / unknown request only ends the procedure that was started with that request
+                if ( opcode_contains_request && body[ 1 ] == procedure_timeout_opcode_ && body[ 1 ] != LL_CONNECTION_PARAM_REQ )
+                    procedure_timeout_ = delta_time();
+
                 if ( !opcode_contains_request || ( opcode_contains_request && body[ 1 ] == LL_CONNECTION_PARAM_REQ ) )
                 {
-                    procedure_timeout_ = delta_time();
+                    if ( !opcode_contains_request || procedure_timeout_opcode_ == LL_CONNECTION_PARAM_REQ )
+                        procedure_timeout_ = delta_time();
 
                     if ( connection_parameters_request_running_ && connection_parameters_request_use_signaling_channel_ )
                     {
@@ -1761,7 +1786,8 @@ namespace link_layer {
             }
             else if ( opcode == LL_CONNECTION_UPDATE_IND )
             {
-                procedure_timeout_ = delta_time();
+                if ( procedure_timeout_opcode_ == LL_CONNECTION_PARAM_REQ )
+                    procedure_timeout_ = delta_time();
 
                 if ( parse_timing_parameters_from_connection_update_request( body ) )
                 {
